@@ -294,10 +294,10 @@ def attach_all(run, rt):
     rt.attach(GA, "iter_ranges_of", name="GenomicArray.iter_ranges_of", pre=_snap_two, post=post_iter_ranges_of, generator=True)
     rt.attach(GA, "into_ranges", name="GenomicArray.into_ranges", pre=_snap_two, post=post_into_ranges)
     traced = [
-        ("intersect.by_shared_chroms", I.by_shared_chroms), ("intersect._irange_simple", I._irange_simple),
-        ("intersect._irange_nested", I._irange_nested), ("intersect.idx_ranges", I.idx_ranges),
-        ("intersect.iter_slices", I.iter_slices), ("intersect.iter_ranges", I.iter_ranges),
-        ("intersect.into_ranges", I.into_ranges), ("intersect.by_ranges", I.by_ranges),
+        ("intersect.by_shared_chroms", rt.opt(I, "by_shared_chroms")), ("intersect._irange_simple", rt.opt(I, "_irange_simple")),
+        ("intersect._irange_nested", rt.opt(I, "_irange_nested")), ("intersect.idx_ranges", rt.opt(I, "idx_ranges")),
+        ("intersect.iter_slices", rt.opt(I, "iter_slices")), ("intersect.iter_ranges", rt.opt(I, "iter_ranges")),
+        ("intersect.into_ranges", rt.opt(I, "into_ranges")), ("intersect.by_ranges", rt.opt(I, "by_ranges")),
     ]
     # path recorders: which slicing routine served the calls
     rt.attach(I, "_irange_simple", name="path._irange_simple", post=_count("_irange_simple"))
